@@ -7,7 +7,7 @@ import leafgen as lg
 import treegen as tg
 
 ID = 'C06'
-GEN = ['kernels', 'constraints']
+GEN = ['kernels', 'constraints', 'utils']
 PROPS = 'Props/C06.v'
 MODEL_VO = ['Model/Tree.v']
 SHARD = 60
